@@ -19,6 +19,7 @@
 use vstd::prelude::*;
 use vstd::std_specs::cmp::*;
 use vstd::std_specs::hash::EntrySpecFns;
+use vstd::std_specs::iter::IteratorSpec;
 use std::collections::{HashMap, HashSet};
 use std::sync::Arc;
 use std::hash::Hash;
